@@ -90,6 +90,10 @@ func newDriver(comp int64, cfg []int64) driver {
 		return &histDrv{h: rtpfb.C12NewHistory()}
 	case compGW:
 		return newGwDrv(arg(0))
+	case compLBS:
+		return newLbsDrv(arg(0), arg(1))
+	case compPCR:
+		return newPcrDrv(arg(1), arg(2))
 	}
 
 	return nil
